@@ -29,6 +29,7 @@ fn main() {
     let path = "/repo/crates/cgt-cli/src/main.rs";
     println!("cargo:rerun-if-changed={path}");
     println!("cargo:rerun-if-changed=build.rs");
+    println!("cargo:rustc-env=VERIF_REPO_ROOT={}", "/repo/");
     let src = fs::read_to_string(path).unwrap_or_default();
     let mut out = String::from("use anyhow::{Result, bail};\nuse std::fs;\nuse cgt_money::RateFile;\n");
     match extract(&src, "read_and_concatenate_files") {
